@@ -46,7 +46,10 @@ EXPECTED_PROBES = ["alloc_fault_fired", "retry_after_alloc_error", "batch_size_1
                    "looped_path", "vectorised_path", "nonsquare_detector", "nonsquare_scan",
                    "fit_origin_plane", "history_reuse_after_shift", "intensity_scale_tiny",
                    "intensity_scale_huge", "counts_beyond_float32_integers", "detector_side_ge_16",
-                   "more_than_64_patterns"]
+                   "more_than_64_patterns", "layout_F", "layout_strided", "layout_swapped",
+                   "nonunit_calibration", "integer_origin_outside_detector", "origin_given_noncontiguous",
+                   "shift_mode_nearest", "shift_mode_bicubic", "planted_plane_explicit_positions",
+                   "detector_mask_bool", "detector_mask_float", "detector_mask_int", "detector_mask_hole"]
 
 _ctx = {}
 
@@ -93,7 +96,7 @@ def gen(rng: Rng, tier, i):
     for j in range(rng.pick([4, 6, 9])):
         r = rng.fork(("op", j))
         k = r.weighted([("calc", 4), ("fit", 2), ("shift", 2), ("plant_plane", 2), ("plant_const", 1),
-                        ("plant_int", 3)])
+                        ("plant_int", 3), ("plant_plane_pos", 1.5)])
         b = simsched.batch_size_knob(r, n)
         op = {"op": k, "b": b}
         if k in ("calc", "shift", "plant_int") and r.chance(0.3):
@@ -111,12 +114,32 @@ def gen(rng: Rng, tier, i):
             op["c"] = [round(r.uniform(0, 5), 3), round(r.uniform(0, 5), 3)]
         if k == "plant_int":
             op["seed"] = r.randrange(10 ** 6)
+            x = r.fork("ext")
+            op["mode"] = x.pick(["bilinear", "bilinear", "bilinear", "nearest", "bicubic"])
+            op["wrap"] = x.chance(0.3)       # integer origins outside [0, size): several wraps
+            op["noncontig"] = x.chance(0.2)  # origins handed over as a non-contiguous tensor
+        if k == "plant_plane_pos":
+            # a plane over EXPLICIT probe positions (scaled, offset, jittered, permuted)
+            op["coef"] = [[round(r.uniform(-0.5, 0.5), 3), round(r.uniform(-0.5, 0.5), 3),
+                           round(r.uniform(1, 4), 3)] for _ in range(2)]
+            op["scale"] = [r.pick([1.0, 2.5, 0.7]), r.pick([1.0, 0.4, 3.0])]
+            op["offset"] = [r.pick([0.0, 10.0, -3.0]), r.pick([0.0, -7.5])]
+            op["jitter"] = r.pick([0.0, 0.0, 0.3])
+            op["permute"] = r.chance(0.5)
+            op["as"] = r.pick(["numpy", "tensor", "noncontig"])
+            op["seed"] = r.randrange(10 ** 6)
         ops.append(op)
     return {"scan": scan, "det": det, "fill": rng.randrange(10 ** 6), "ops": ops,
-            "dtype": rng.pick(["float32", "float32", "float64", "uint16", "int32"]),
+            "dtype": rng.pick(["float32", "float32", "float64", "uint16", "int32", "uint8"]),
             # intensity scale 2**e (exact in binary floating point): the centre of mass is scale-free
             "scale_e": rng.fork("scale").pick([0, 0, 0, 0, -70, -50, -30, -12, -3, 7, 24, 40, 60]),
             "count_mul": rng.fork("scale").pick([1, 1, 1, 37, 4096, 1 << 19]),
+            # memory layout of the 4-D array, calibration of the dataset (results stay in pixels)
+            "layout": rng.fork("layout").pick(["C", "C", "C", "F", "strided", "swapped"]),
+            "calib": rng.fork("calib").pick(["unit", "unit", "scaled"]),
+            # detector mask for the dataset model's centre of mass (None / bool / float weights / int)
+            "dp_mask": rng.fork("dpmask").pick([None, None, "bool", "float", "int", "hole"]),
+            "mask_seed": rng.randrange(10 ** 6),
             "raster": rng.chance(0.35), "raster_fit": rng.pick(["constant", "plane", "none"])}
 
 
@@ -129,16 +152,51 @@ def _data(plan):
         for j in range(sy):
             a[i, j, g.integers(0, H), g.integers(0, W)] += g.uniform(3, 10)
     dt = plan.get("dtype", "float32")
-    if dt in ("uint16", "int32"):
+    if dt in ("uint16", "int32", "uint8"):
         cnt = np.round(a * 50 + 1)               # positive integer counts
         if dt == "int32":
             cnt = cnt * plan.get("count_mul", 1)  # up to ~2.9e8: beyond float32's exact integers
+        elif dt == "uint16" and plan.get("count_mul", 1) > 1:
+            cnt = cnt * 100                       # up to 55 100: a uint16 sum over the pattern overflows
+        elif dt == "uint8":
+            cnt = np.round(a * 20 + 1)            # up to 221: a uint8 sum overflows at once
         return cnt.astype(dt)
     return (a.astype(dt) * dt_scale(dt, plan.get("scale_e", 0))).astype(dt)
 
 
 def dt_scale(dt, e):
     return np.dtype(dt).type(2.0) ** np.dtype(dt).type(e)
+
+
+def _lay(a, layout):
+    """Same values in another memory layout (Fortran order, a strided view, swapped-back axes)."""
+    if layout == "F":
+        return np.asfortranarray(a)
+    if layout == "strided":
+        w = np.zeros(a.shape[:-1] + (2 * a.shape[-1],), dtype=a.dtype)
+        w[..., ::2] = a
+        return w[..., ::2]
+    if layout == "swapped":
+        return np.swapaxes(np.ascontiguousarray(np.swapaxes(a, 0, 1)), 0, 1)
+    return a.copy()
+
+
+def _dp_mask(plan):
+    kind = plan.get("dp_mask")
+    if not kind:
+        return None
+    H, W = plan["det"]
+    g = np.random.Generator(np.random.PCG64(plan.get("mask_seed", 0)))
+    if kind == "float":
+        return g.uniform(0.1, 1.0, (H, W))
+    m = g.uniform(0, 1, (H, W)) < 0.7
+    if kind == "hole":
+        m[:] = True
+        m[g.integers(0, H), g.integers(0, W)] = False
+    if not m.any():
+        m[0, 0] = True
+    m[g.integers(0, H), :] = True      # keeps every masked total positive
+    return m.astype({"bool": bool, "hole": bool, "int": np.int64}[kind])
 
 
 def _ref_com(a):
@@ -187,8 +245,15 @@ def run(plan):
     ref = np.stack([ref_r.ravel(), ref_c.ravel()], -1)
     tol = 2e-5 * max(H, W)
     fault.disarm()
-    d4 = _ctx["D4"].from_array(a.copy(), sampling=(1.0, 1.0, 0.05, 0.05),
-                               units=("A", "A", "A^-1", "A^-1"))
+    lay = plan.get("layout", "C")
+    if lay != "C":
+        bump(probes, "layout_" + lay)
+    cal = dict(sampling=(1.0, 1.0, 0.05, 0.05), units=("A", "A", "A^-1", "A^-1"))
+    if plan.get("calib") == "scaled":
+        bump(probes, "nonunit_calibration")
+        cal = dict(sampling=(2.0, 0.5, 0.05, 0.1), origin=(1.0, -2.0, 3.0, 4.5),
+                   units=("A", "A", "A^-1", "A^-1"))
+    d4 = _ctx["D4"].from_array(_lay(a, lay), **cal)
     try:
         model = _ctx["om"].CenterOfMassOriginModel.from_dataset(d4)
     except Exception as e:
@@ -323,11 +388,23 @@ def run(plan):
             elif k == "plant_int":
                 bump(probes, "integer_shift")
                 g = np.random.Generator(np.random.PCG64(op["seed"]))
-                org = np.stack([g.integers(0, H, n), g.integers(0, W, n)], -1)
-                model.origin_fitted = torch.from_numpy(org.astype(np.float32))
+                if op.get("wrap"):
+                    bump(probes, "integer_origin_outside_detector")
+                    org = np.stack([g.integers(-H, 2 * H, n), g.integers(-W, 2 * W, n)], -1)
+                else:
+                    org = np.stack([g.integers(0, H, n), g.integers(0, W, n)], -1)
+                if op.get("noncontig"):
+                    bump(probes, "origin_given_noncontiguous")
+                    model.origin_fitted = torch.from_numpy(
+                        np.ascontiguousarray(org.T.astype(np.float32))).T
+                else:
+                    model.origin_fitted = torch.from_numpy(org.astype(np.float32))
                 have_fitted = True
                 coord = op["coord"]
-                call(tag, lambda b: model.shift_origin_to(tuple(coord), b), op)
+                mode = op.get("mode", "bilinear")
+                if mode != "bilinear":
+                    bump(probes, "shift_mode_" + mode)
+                call(tag, lambda b: model.shift_origin_to(tuple(coord), b, mode), op)
                 shifted_once = True
                 got = model.shifted_tensor.detach().numpy().reshape(n, H, W)
                 src = a.reshape(n, H, W).astype(np.float64)
@@ -336,8 +413,36 @@ def run(plan):
                     want = np.roll(src[q], (-(org[q, 0] - coord[0]), -(org[q, 1] - coord[1])), (0, 1))
                     worst = max(worst, float(np.abs(got[q] - want).max()))
                 if not worst <= 1e-5 * float(a.max()):
-                    viol("integer_shift_not_roll", f"{tag} det={plan['det']} coord={coord}: "
-                         f"max deviation from np.roll {worst:.3g}", "integer_shift_not_roll")
+                    viol("integer_shift_not_roll", f"{tag} det={plan['det']} coord={coord} mode={mode}: "
+                         f"max deviation from np.roll {worst:.3g}", "integer_shift_not_roll" + (
+                             "" if mode == "bilinear" else ":" + mode))
+            elif k == "plant_plane_pos":
+                bump(probes, "planted_plane_explicit_positions")
+                g = np.random.Generator(np.random.PCG64(op["seed"]))
+                xs, ys = np.meshgrid(np.arange(sx), np.arange(sy), indexing="ij")
+                pos = np.stack([xs.ravel(), ys.ravel()], -1) * np.asarray(op["scale"]) + np.asarray(
+                    op["offset"]) + g.uniform(-1, 1, (n, 2)) * op["jitter"]
+                if np.linalg.matrix_rank(pos - pos.mean(0), tol=1e-6) < 2:
+                    continue          # collinear positions do not determine a plane
+                planted = np.stack([c[0] * pos[:, 0] + c[1] * pos[:, 1] + c[2] for c in op["coef"]],
+                                   -1).astype(np.float32)
+                if op["permute"]:
+                    perm = g.permutation(n)
+                    pos, planted = pos[perm], planted[perm]
+                p32 = np.ascontiguousarray(pos.astype(np.float32))
+                arg = {"numpy": p32, "tensor": torch.from_numpy(p32.copy()),
+                       "noncontig": torch.from_numpy(np.ascontiguousarray(p32.T)).T}[op["as"]]
+                model.origin_measured = torch.from_numpy(planted.copy())
+                model.fit_origin_background(probe_positions=arg, fit_method="plane")
+                got = model.origin_fitted.detach().numpy()
+                err = np.abs(got - planted).max()
+                if not err <= 2e-4 * max(1.0, float(np.abs(planted).max()), float(np.abs(pos).max())):
+                    viol("planted_surface_not_recovered", f"{tag}: plane over explicit positions "
+                         f"(scale {op['scale']} offset {op['offset']} jitter {op['jitter']} permuted "
+                         f"{op['permute']} as {op['as']}) deviates {err:.3g}",
+                         "planted_surface:model:plane_explicit_positions")
+                have_fitted = True
+                have_measured = False
     except MemoryError:
         raise HarnessError("injected MemoryError escaped the retry logic")
     except Exception as e:
@@ -372,6 +477,44 @@ def run(plan):
             if not np.array_equal(src, a):
                 viol("input_mutated", f"preprocess(vectorized={vec}) modified the caller's array",
                      f"input_mutated:vectorized={vec}")
+            # ---- detector mask: masked centre of mass = mean coordinate over the weighted pixels
+            mk = _dp_mask(plan)
+            if mk is not None:
+                bump(probes, "detector_mask_" + plan["dp_mask"])
+                a4 = a.copy()
+                mk0 = mk.copy()
+                am = a.astype(np.float64) * mk.astype(np.float64)
+                mr, mc = _ref_com(am)
+                try:
+                    pd._set_intensities_com(a4, dp_mask=mk, fit_function=plan["raster_fit"],
+                                            vectorized_calculation=vec)
+                    cm = np.asarray(pd.com_measured, dtype=np.float64)
+                except Exception as e:
+                    viol("op_raised", f"_set_intensities_com(dp_mask={plan['dp_mask']}, vectorized="
+                         f"{vec}) raised {e!r}", f"op_raised:raster_mask:{vec}:{type(e).__name__}")
+                    continue
+                err = max(np.abs(cm[0] - mr).max(), np.abs(cm[1] - mc).max())
+                if not err <= tol:
+                    viol("com_mismatch", f"dataset model with detector mask ({plan['dp_mask']}) "
+                         f"vectorized={vec}: max |com_measured - masked float64 reference| = {err:.3g} px",
+                         f"com_mismatch:dataset_model:mask:vectorized={vec}")
+                if not np.array_equal(a4, a) or not np.array_equal(mk, mk0):
+                    viol("input_mutated", f"_set_intensities_com(vectorized={vec}) modified the "
+                         "caller's intensities or mask", f"input_mutated:mask:vectorized={vec}")
+                # the origin model on the pre-masked data must agree (same statement, other class)
+                if vec and a.dtype.kind == "f":
+                    try:
+                        dm = _ctx["D4"].from_array((a * mk.astype(a.dtype)), sampling=(1.0, 1.0, 0.05, 0.05),
+                                                   units=("A", "A", "A^-1", "A^-1"))
+                        om_ = _ctx["om"].CenterOfMassOriginModel.from_dataset(dm).calculate_origin(None)
+                        g2 = om_.origin_measured.detach().numpy().astype(np.float64)
+                        e2 = max(np.abs(g2[:, 0] - cm[0].ravel()).max(), np.abs(g2[:, 1] - cm[1].ravel()).max())
+                        if not e2 <= 2 * tol:
+                            viol("models_disagree", f"origin model vs dataset model on masked data: "
+                                 f"{e2:.3g} px", "models_disagree:mask")
+                    except Exception as e:
+                        viol("op_raised", f"origin model on masked data raised {e!r}",
+                             f"op_raised:origin_model_masked:{type(e).__name__}")
     if len(bsizes) >= 2:
         res["nontrivial"] = plan_digest({k: plan[k] for k in plan if k != "run_seed"})
     seen, uniq = set(), []
@@ -406,6 +549,9 @@ def shrink(plan):
             p = copy.deepcopy(plan)
             p["ops"][i]["b"] = None
             yield p
+    for key, plain in (("layout", "C"), ("calib", "unit"), ("dp_mask", None)):
+        if plan.get(key) not in (None, plain):
+            yield {**plan, key: plain}
     if plan.get("scale_e", 0):
         yield {**plan, "scale_e": 0}
     if plan.get("count_mul", 1) != 1:
